@@ -105,6 +105,9 @@ type Stub struct {
 	TS         *timestamp.Timestamp
 	Transient  map[string][]byte
 	Invoker    Invoker
+	// Hook, when set, is called at the start of every state read, state write and cross-chaincode
+	// call: switch points inside library code for the C17 scheduler.
+	Hook func(op string)
 
 	mu         sync.Mutex
 	writes     map[string]*Write
@@ -145,6 +148,9 @@ func (s *Stub) GetTxID() string      { return s.TxID }
 func (s *Stub) GetChannelID() string { return s.Channel }
 
 func (s *Stub) InvokeChaincode(chaincodeName string, args [][]byte, channel string) pb.Response {
+	if s.Hook != nil {
+		s.Hook("InvokeChaincode")
+	}
 	s.mu.Lock()
 	fn := ""
 	if len(args) > 0 {
@@ -159,6 +165,9 @@ func (s *Stub) InvokeChaincode(chaincodeName string, args [][]byte, channel stri
 }
 
 func (s *Stub) GetState(key string) ([]byte, error) {
+	if s.Hook != nil {
+		s.Hook("GetState")
+	}
 	s.mu.Lock()
 	s.ReadKeys = append(s.ReadKeys, key)
 	s.mu.Unlock()
@@ -185,6 +194,9 @@ func (s *Stub) record(w *Write) {
 }
 
 func (s *Stub) PutState(key string, value []byte) error {
+	if s.Hook != nil {
+		s.Hook("PutState")
+	}
 	if key == "" {
 		return errors.New("key must not be an empty string")
 	}
